@@ -154,6 +154,15 @@ def eq_values(I, st, a, b):
                 return False
             if any(x.kind == "obj" and "__list__" in x.attrs for x in (ea, eb)):
                 raise Unsupported("== on an instance of a list subclass")
+            if any(x.kind == "obj" and "__dictdata__" in x.attrs for x in (ea, eb)):
+                # an instance of a dict subclass (without __eq__) compares as its mapping
+                if any(x.kind == "obj" and I.class_lookup(x.cls, "__eq__")[0] is not None for x in (ea, eb)):
+                    raise Unsupported("== on an instance of a dict subclass with __eq__")
+                a2 = ea.attrs["__dictdata__"] if ea.kind == "obj" else a
+                b2 = eb.attrs["__dictdata__"] if eb.kind == "obj" else b
+                if st.get(a2).kind == "dict" and st.get(b2).kind == "dict":
+                    return eq_values(I, st, a2, b2)
+                return False
             return False
         if ea.kind in ("list", "deque"):
             return seq_eq(I, st, ea.items, eb.items)
@@ -168,6 +177,12 @@ def eq_values(I, st, a, b):
         if ea.kind == "obj":
             if a.id != b.id and ("__list__" in ea.attrs or "__list__" in eb.attrs):
                 raise Unsupported("== on instances of a list subclass")
+            if a.id != b.id and ("__dictdata__" in ea.attrs or "__dictdata__" in eb.attrs):
+                if any(I.class_lookup(x.cls, "__eq__")[0] is not None for x in (ea, eb)):
+                    raise Unsupported("== on instances of a dict subclass with __eq__")
+                if "__dictdata__" in ea.attrs and "__dictdata__" in eb.attrs:
+                    return eq_values(I, st, ea.attrs["__dictdata__"], eb.attrs["__dictdata__"])
+                return False
             return a.id == b.id
         if ea.kind == "symlist":
             if a.id == b.id:
@@ -485,6 +500,9 @@ def contains(I, st, container, item):
             if "__list__" in e.attrs:
                 yield from contains(I, st, e.attrs["__list__"], item)
                 return
+            if "__dictdata__" in e.attrs:
+                yield from contains(I, st, e.attrs["__dictdata__"], item)
+                return
         if e.kind == "nd":
             yield st, disj([eq_values(I, st, x, item) for x in e.data])
             return
@@ -647,11 +665,27 @@ def getitem(I, st, obj, idx):
                     raise Unsupported("slice of an instance of a list subclass")
                 yield from getitem(I, st, e.attrs["__list__"], idx)
                 return
+            if m is None and "__dictdata__" in e.attrs:
+                yield from getitem(I, st, e.attrs["__dictdata__"], idx)
+                return
             if m is None:
                 yield st, exc("TypeError", "object is not subscriptable")
                 return
             yield from I.call(m, [obj, idx], {}, st)
             return
+    if isinstance(obj, ClassVal) and is_enum_class(I, obj):
+        # EnumClass["NAME"]: the member of that name, KeyError otherwise
+        from .attrs import enum_member
+
+        if not isinstance(idx, str):
+            raise Unsupported("enum class subscript with a non-string")
+        m, _ = I.class_lookup(obj, idx)
+        mem = enum_member(I, st, obj, idx) if (m is not None and not idx.startswith("_")) else None
+        if isinstance(mem, EnumMember):
+            yield st, mem
+        else:
+            yield st, exc("KeyError", idx)
+        return
     if isinstance(obj, (ClassVal, BuiltinClass, Opaque)):
         yield st, obj  # typing generics: List[int]
         return
@@ -881,6 +915,9 @@ def setitem(I, st, obj, idx, v):
             if m is None and "__list__" in e.attrs:
                 yield from setitem(I, st, e.attrs["__list__"], idx, v)
                 return
+            if m is None and "__dictdata__" in e.attrs:
+                yield from setitem(I, st, e.attrs["__dictdata__"], idx, v)
+                return
             if m is None:
                 yield st, exc("TypeError", "object does not support item assignment")
                 return
@@ -949,6 +986,9 @@ def delitem(I, st, obj, idx):
             if "__list__" in e.attrs:
                 yield from delitem(I, st, e.attrs["__list__"], idx)
                 return
+            if "__dictdata__" in e.attrs:
+                yield from delitem(I, st, e.attrs["__dictdata__"], idx)
+                return
     raise Unsupported("del item on %r" % (obj,))
 
 
@@ -989,6 +1029,8 @@ def iterate(I, st, v):
             return list(e.attrs["__tuple__"])
         if e.kind == "obj" and "__list__" in e.attrs and I.class_lookup(e.cls, "__iter__")[0] is None:
             return list(st.get(e.attrs["__list__"]).items)
+        if e.kind == "obj" and "__dictdata__" in e.attrs and I.class_lookup(e.cls, "__iter__")[0] is None:
+            return list(st.get(e.attrs["__dictdata__"]).items)
         if e.kind == "obj":
             m, _ = I.class_lookup(e.cls, "__iter__")
             if m is not None:
@@ -1004,6 +1046,8 @@ def iterate(I, st, v):
         raise Unsupported("iteration over a heap sequence needs a loop invariant")
     if isinstance(v, EnumClassIter):
         return v.members
+    if isinstance(v, ClassVal) and is_enum_class(I, v):
+        return enum_class_members(I, st, v)
     from .attrs import ObjDict as _ObjDict
 
     if isinstance(v, _ObjDict):
@@ -1038,6 +1082,40 @@ def is_enum_class(I, cls):
         if isinstance(c, BuiltinClass) and c.name in ("Enum", "IntEnum", "Flag", "IntFlag"):
             return True
     return False
+
+
+def enum_class_members(I, st, cls):
+    """iter(EnumClass) / list(EnumClass): the members in definition order.  Only plain enum.Enum / IntEnum classes whose
+    members are simple `NAME = <concrete, pairwise distinct value>` assignments in the class body (aliases and Flag
+    classes iterate differently -> Unsupported)."""
+    import ast as _ast
+    from .attrs import enum_member
+
+    for c in I.mro(cls):
+        if isinstance(c, BuiltinClass) and c.name in ("Flag", "IntFlag"):
+            raise Unsupported("iteration over a Flag class")
+        if isinstance(c, ClassVal) and c != cls and any(isinstance(n, _ast.Assign) for n in c.node.body):
+            raise Unsupported("iteration over an enum class with an enum base that has assignments")
+    out, seen = [], []
+    for n in cls.node.body:
+        if isinstance(n, _ast.Assign):
+            if len(n.targets) != 1 or not isinstance(n.targets[0], _ast.Name):
+                raise Unsupported("enum class body: assignment target")
+            name = n.targets[0].id
+            if name.startswith("_"):
+                if name in ("_ignore_", "_order_") or (name.startswith("__") and name.endswith("__")):
+                    raise Unsupported("enum class body: " + name)
+                continue
+            m = enum_member(I, st, cls, name)
+            if not isinstance(m, EnumMember) or isinstance(m.value, Ref) or is_z3(m.value):
+                raise Unsupported("enum member %s.%s is not a plain constant" % (cls.name, name))
+            if any(type(m.value) is type(x) and m.value == x for x in seen) or any(m.value == x for x in seen):
+                raise Unsupported("enum class with aliases")
+            seen.append(m.value)
+            out.append(m)
+        elif isinstance(n, (_ast.AnnAssign, _ast.AugAssign)):
+            raise Unsupported("enum class body: annotated / augmented assignment")
+    return out
 
 
 # ---------------------------------------------------------------------------- namedtuple
